@@ -322,6 +322,12 @@ P_COMMIT_CHECK = [P(fn, nm + ": the previous-root comparison precedes the rollba
                                  ("commit_check_session_try", "FinishedSession::try_commit_nonblocking"),
                                  ("commit_check_overlay_commit", "Overlay::commit"),
                                  ("commit_check_overlay_try", "Overlay::try_commit_nonblocking")]]
+P_RB_POISON = P("rollback_append_poison", "the four commit entry points: when the rollback-log append (outside Store::commit) fails, Store::poison is called "
+                "before the error is returned", P_BOUNDS, assumes=[ASSUME_P])
+P_SWEEP = [P("no_swallow_sweep_%d" % i, "sweep shard %d/8 over every function of nomt/src/{store,bitbox,beatree,rollback,seglog,io}/ and lib.rs that produces an "
+             "io::Result / anyhow::Result / CompleteIo / TaskResult: the value is inspected, propagated or handed on before it is dropped; "
+             "`r.is_ok()` / `r.is_err()` discharge it only on the Ok arm. Exempt: fs_check capability probes; the fsyncer worker's result after HandleDead" % i,
+             P_BOUNDS, assumes=[ASSUME_P], timeout_s=60) for i in range(8)]
 P_DIR_LOCK = P("dir_lock_first", "store::create / Store::open: Flock::lock returned Ok before any database file is created, opened, read or "
                "written, before the I/O pool starts, and on every Ok return", P_BOUNDS, assumes=[ASSUME_P])
 P_FLOCK_RESULT = P("flock_result", "Flock::lock: Ok(Flock) only on the success arm of try_lock_exclusive; no fallible value dropped", P_BOUNDS, assumes=[ASSUME_P])
@@ -468,11 +474,14 @@ PROPERTIES = {
             "explanation": "In each of the four commit entry points the previous-root check dominates every effect; counterexamples are "
                            "replayed as concrete API histories (stale commit, then rollback / overlay-chain completeness).",
             "outside": ["interleavings of two racing committers", "effects hidden inside Store::commit on the accepted path"]},
-    "C14": {"level": "model_checking", "obligations": [P_NO_SWALLOW, P_POISON, P_SYNC_ORDER, P_BEATREE_SYNC, P_ROLLBACK_SYNC, P_SEGLOG_APPEND, P_ROLLBACK_COMMIT],
-            "explanation": "No fallible I/O value is dropped uninspected in the bitbox/meta/sync orchestration; an error from Sync::sync "
-                           "poisons the store before it is returned; a failure before the switch-over returns before any post-meta step. "
-                           "Counterexamples are replayed with injected page-write failures against the real crate.",
-            "outside": ["beatree / rollback / seglog error paths", "hangs (channel pairing)", "what the reopened state is"]},
+    "C14": {"level": "model_checking", "obligations": [P_NO_SWALLOW, P_POISON, P_SYNC_ORDER, P_BEATREE_SYNC, P_ROLLBACK_SYNC, P_SEGLOG_APPEND, P_ROLLBACK_COMMIT, P_RB_POISON] + P_SWEEP,
+            "explanation": "No fallible I/O value is dropped uninspected in any function of the storage modules (sweep) and in the bitbox/meta/sync "
+                           "orchestration (targeted obligations); an error from Sync::sync, and a failed rollback-log append, poison the store before "
+                           "the error is returned; a failure before the switch-over returns before any post-meta step. Counterexamples are replayed "
+                           "against the real crate with injected page-write failures (I/O pool hook) and with strace fault injection (one EIO at the "
+                           "n-th fsync / fdatasync / ftruncate / write / pwrite64 on each database file during a commit).",
+            "outside": ["hangs (channel pairing)", "what the reopened state is", "errors converted into panics (loud, not swallowed)",
+                        "failures of io_uring page reads"]},
     "C20": {"level": "model_checking", "obligations": [P_DIR_LOCK, P_FLOCK_RESULT, P_RELEASE],
             "explanation": "The in-process half of directory exclusivity, decided over the MIR event structure: the advisory lock is "
                            "acquired (and its result honoured) before any database file is touched, a failed lock attempt returns "
